@@ -38,6 +38,10 @@ pub enum Ev {
     /// answer the slot's pending proof request with a last header carrying a forged chain root (re-mined)
     ForgedProof(u8, u32),
     Restart,
+    /// two announcements by the peer in `slot`: first an unproven SIBLING of its proven header (same height, chain root forged
+    /// to a huge total difficulty, PoW-valid and self-consistent: it is only recorded as the peer's last state), then a child
+    /// of the PROVEN header whose parent chain root is forged to be consistent with that sibling
+    ForgedSiblingChild(u8, u32),
 }
 
 #[derive(Debug, Clone, Serialize, Deserialize)]
@@ -92,6 +96,23 @@ fn forged_child(chain: &Chain, parent_n: u64, kind: u8, factor: u32, salt: u64, 
     (vh, h)
 }
 
+/// A PoW-valid header `number` on top of `parent_hash` which commits to the given (forged) parent chain root.
+fn forge(chain: &Chain, parent_hash: Byte32, number: u64, root: packed::HeaderDigest, salt: u64, now: u64) -> (packed::VerifiableHeader, HeaderView) {
+    let (epoch, ct) = chain.epoch_of(number);
+    let ext: Vec<u8> = root.calc_mmr_hash().as_slice().to_vec();
+    let block = BlockBuilder::default()
+        .parent_hash(parent_hash)
+        .number(number.pack())
+        .epoch(epoch.pack())
+        .compact_target(ct.pack())
+        .timestamp((now - 1000 + salt % 500).pack())
+        .extension(Some(Bytes::from(ext).pack()))
+        .build();
+    let (h, _) = crate::lcv::sim::chain::mine_header_bounded(&chain.pow, block.header(), salt as u128, 200_000);
+    let vh = packed::VerifiableHeader::new_builder().header(h.data()).uncles_hash(block.calc_uncles_hash()).extension(Pack::pack(&block.extension())).parent_chain_root(root).build();
+    (vh, h)
+}
+
 impl Property for C12 {
     type Case = Case;
     const ID: &'static str = "C12";
@@ -122,6 +143,7 @@ impl Property for C12 {
             4 => (0u8..4, 0u8..5, any::<u32>()).prop_map(|(s, k, f)| Ev::ForgedChild(s, k, f)),
             2 => (0u8..4, any::<u32>()).prop_map(|(s, f)| Ev::ForgedProof(s, f)),
             1 => Just(Ev::Restart),
+            2 => (0u8..4, any::<u32>()).prop_map(|(s, f)| Ev::ForgedSiblingChild(s, f)),
         ];
         (any::<u64>(), 4u8..50, 0u8..4, 1u8..6, 1u8..5, prop::collection::vec(ev, 1..50)).prop_map(|(seed, len, last_n, fork_depth, fork_extra, events)| Case { seed, len, last_n, fork_depth, fork_extra, events }).boxed()
     }
@@ -244,6 +266,40 @@ fn run_inner(case: &Case, obs: &mut Obs) -> Result<(), Failure> {
                             }
                             let bytes = wrap_lc(packed::SendLastState::new_builder().last_header(vh).build()).as_bytes();
                             w.deliver(SupportProtocols::LightClient, p, bytes);
+                        }
+                    }
+                }
+                Ev::ForgedSiblingChild(s, factor) => {
+                    if let Some(p) = slots[*s as usize % 4] {
+                        let st = w.c().peers.get_state(&p);
+                        let proven = st.as_ref().and_then(|s| s.get_prove_state().map(|ps| ps.get_last_header().header().clone()));
+                        let sp = w.peer(p).unwrap().clone();
+                        if let Some(ph) = proven {
+                            let n = ph.number();
+                            let c = &w.chains[sp.chain];
+                            if n >= 2 && (n as usize) < c.blocks.len() && c.blocks[n as usize].hash() == ph.hash() {
+                                let f = 2 + factor % 100_000;
+                                // X: sibling of the proven header P (parent = block n-1), chain root of 0..=n-1 with an inflated total
+                                let root_x = c.chain_root(n - 1);
+                                let td_x: U256 = root_x.total_difficulty().unpack();
+                                let root_x = root_x.as_builder().total_difficulty((&td_x * f).pack()).build();
+                                let (vx, hx) = forge(c, c.blocks[(n - 1) as usize].hash(), n, root_x, case.seed ^ (step as u64) << 8, w.now);
+                                let x_total: U256 = &td_x * f + hx.difficulty();
+                                // C: child of the proven P, chain root of 0..=n forged to agree with X
+                                let root_c = c.chain_root(n).as_builder().total_difficulty(x_total.pack()).build();
+                                let (vc, hc) = forge(c, ph.hash(), n + 1, root_c, case.seed ^ (step as u64) << 8 ^ 1, w.now);
+                                let ptd_x = reg.td.get(&c.blocks[(n - 1) as usize].hash()).map(|x| x.0.clone()).unwrap_or_default();
+                                let ptd_c = reg.td.get(&ph.hash()).map(|x| x.0.clone()).unwrap_or_default();
+                                reg.td.entry(hx.hash()).or_insert((&ptd_x + hx.difficulty(), hx.parent_hash(), n));
+                                reg.td.entry(hc.hash()).or_insert((&ptd_c + hc.difficulty(), hc.parent_hash(), n + 1));
+                                let phase = st.map(|s| s.to_string().split(' ').next().unwrap_or("").to_string()).unwrap_or_default();
+                                forged_delivered.push((5, phase));
+                                obs.label("forged-sibling-then-forged-child");
+                                let bytes = wrap_lc(packed::SendLastState::new_builder().last_header(vx).build()).as_bytes();
+                                w.deliver(SupportProtocols::LightClient, p, bytes);
+                                let bytes = wrap_lc(packed::SendLastState::new_builder().last_header(vc).build()).as_bytes();
+                                w.deliver(SupportProtocols::LightClient, p, bytes);
+                            }
                         }
                     }
                 }
